@@ -33,7 +33,7 @@ CLAIMED = {
         technique="TLC trace validation (Docs.tla) of recorded deepcopy / edit executions",
         ref="§2.7, §6 C11"),
     'C20': dict(
-        text="Docs.tla defines Eq(a,b) = same type, same text, same structure; comparisons are recorded - parse twice, model vs deep copy, model vs copy after exactly one perturbation (every token's text incl. trivia, each optional slot removed, a repeated item removed, a comment unclaimed), a document vs its one-line extensions, same text with different token type - and TLC checks that == is symmetric and equals Eq, that comparing changes nothing, and that equal tokens hash equal (also after value edits).",
+        text="Docs.tla defines Eq(a,b) = same type, same text, same structure; comparisons are recorded - parse twice, model vs deep copy, model vs copy after exactly one perturbation (every token's text incl. trivia, each optional slot removed, a repeated item removed, a comment unclaimed), different objects of one document that print the same text (a wrapper and the only child filling it, equal siblings), a document vs its one-line extensions, same text with different token type - and TLC checks that == is symmetric and equals Eq, that comparing changes nothing, and that equal tokens hash equal (also after value edits).",
         note="Structure is projected by the harness (classes, filled slots, list shapes, comment ownership); indent_by is not perturbed.",
         technique="TLC trace validation (Docs.tla Eq) of recorded comparisons",
         ref="§2.7, §6 C20"),
@@ -48,32 +48,32 @@ CLAIMED = {
         technique="TLC trace validation (CommentOwnership.tla) + TLA+ Rule oracle from Layout.tla against the real attribution",
         ref="§2.6, §6 C14"),
     'C13': dict(
-        text="NumExpr.tla transcribes the concrete syntax tree of number expressions and the parenthesisation helpers; TLC proves over exact rationals that the value of every result equals the arithmetic result for all operator chains (depth 2-3, plain / in-place / reflected / unary, int / Decimal / expression operands) from 11 initial shapes; every chain is replayed on real NumberExpr objects, free-standing and attached in postings, balances and meta values: value, independent left-to-right Decimal evaluation of the printed text, re-parse, operands and their documents unchanged for non-in-place forms, document frame for in-place forms.",
+        text="NumExpr.tla transcribes the concrete syntax tree of number expressions and the parenthesisation helpers; TLC proves over exact rationals that the value of every result equals the arithmetic result for all operator chains (depth 2-3, plain / in-place / reflected / unary, int / Decimal / expression operands) from 11 initial shapes, and for literals inside the expression assigned in place through their own token after every node's value has been read; every chain is replayed on real NumberExpr objects, free-standing and attached in postings, balances and meta values: value, independent left-to-right Decimal evaluation of the printed text, re-parse, operands and their documents unchanged for non-in-place forms, document frame for in-place forms.",
         note="Structure over exact rationals in the specification; decimal accuracy only by comparison with an independent evaluator. Division by zero excluded.",
         technique="TLA+ NumExpr value invariant (TLC) + chain replay on the real operators",
         ref="§6 C13"),
     'C16': dict(
-        text="Editor.tla models a recursive / single-file editing session over a disk: include graphs (by name, *.bean, **/*.bean, dangling), BFS reachability, body operations (edit, edit-and-revert, delete key, add key, add empty file), normal and raising exit, with the expected final disk in every behaviour; TLC checks reachability invariants and enumerates all sessions; each is replayed on the real Editor in a temporary directory comparing bytes, existence, mtime (not rewritten), mapping keys and parse count (each file once).",
+        text="Editor.tla models a recursive / single-file editing session over a disk: include graphs (by name, *.bean, **/*.bean, dangling), BFS reachability, body operations (edit by appending, edit of one token in place with the same extent, edit-and-revert, delete key, add key, add empty file, add a file two missing directory levels deep), normal and raising exit, with the expected final disk in every behaviour; TLC checks reachability invariants and enumerates all sessions; each is replayed on the real Editor in a temporary directory comparing bytes, existence, mtime (not rewritten), mapping keys and parse count (each file once).",
         note="3 (quick) / 4 (thorough) files in a 3-level directory tree; 5 root spellings; LF / CRLF / mixed / no final newline.",
         technique="TLA+ Editor session model (TLC) replayed on real temporary directories",
         ref="§6 C16"),
     'C02': dict(
-        text="Every token of every Layout.tla document is assigned replacement values/raw texts (per-kind classes: same width, wider, narrower, adding/removing line breaks, non-canonical spellings) singly and in sequences; each assignment is one recorded event with the full observation battery, and TLC validates every trace against TokenSeqTrace.tla: row identity/order and length unchanged, every other token keeps its text, the assigned token carries exactly the assigned text, refused assignments are stutters.",
-        note="Documents of <= 3-4 lines (<= 48 tokens), a few replacement representatives per token kind, load factor rotated over 2,3,4,1000.",
+        text="Every token of every Layout.tla document is assigned replacement values/raw texts (per-kind classes: same width, wider, narrower, adding/removing line breaks, non-canonical spellings) singly and in sequences; each assignment is one recorded event with the full observation battery, and TLC validates every trace against TokenSeqTrace.tla: row identity/order and length unchanged, every other token keeps its text, the assigned token carries exactly the assigned text, refused assignments are stutters. The same assignments are also made through the owning model's value property (incl. the empty string), where the one token may be replaced by one new token at the same position.",
+        note="Documents of <= 3-4 lines (<= 48 tokens), a few replacement representatives per token kind, block size rotated over 2,3,4,1000 and adversarial block shapes (largest next to smallest legal block).",
         technique="TLC trace validation (TokenSeqTrace.tla) of recorded token assignments on Layout.tla documents",
         ref="§6 C02"),
     'C09': dict(
-        text="CostSpec.tla holds the record-of-optionals model and an implementation-shaped transcription of the three cost setters over concrete syntax forms; TLC enumerates every assignment sequence (depth 2-3) from every initial form (both brace kinds, every main component shape incl. split forms, date/label/merge layouts) and each is replayed on a real posting: rejection class, read-back of all six properties, read-back after print/re-parse, text outside the cost, tree. TxnStrings / generic value properties are added by their modules.",
+        text="CostSpec.tla holds the record-of-optionals model and an implementation-shaped transcription of the three cost setters over concrete syntax forms; TLC enumerates every assignment sequence (depth 2-3) from every initial form (both brace kinds, every main component shape incl. split forms, date/label/merge layouts) and each is replayed on a real posting: rejection class, read-back of all six properties, read-back after print/re-parse, text outside the cost, tree. TxnStrings / generic value properties are added by their modules; MetaValue.tla (the typed union behind MetaItem.value / pushmeta / meta[key]: four simplified kinds updated in place, five preserved kinds, absent) is enumerated by TLC (all assignment sequences of depth 2-3 over 10 kinds x 2 values x 2 routes x plain/model form) and replayed on five host layouts.",
         note="Two abstract values per number/currency/date/label (one of the numbers is zero). Deviations of the transcribed algorithm from the record model are listed in the evidence; 4 failing edges are recorded as known findings.",
         technique="TLA+ CostSpec refinement edges (TLC) replayed on the real cost setters",
         ref="§2.5, §6 C09"),
     'C01': dict(
-        text="TLC enumerates every document of Layout.tla (all sequences of structural line classes up to N lines, single-line deviations, LF/CRLF, final line end) together with the grammar's nesting automaton; each is rendered and parsed by the real parser in both attribution modes and print/round-trip, store concatenation and every sub-model's slice are compared with the input; PostLex.tla (mark insertion state machine, invariants checked by TLC) is replayed into the real PostLex class.",
-        note="Small scope: <= 4 (quick) / 5 (thorough) lines over 12 line classes with rotating concrete directives; characters inside lexemes are representatives (the regex lexer is exercised, not modelled).",
+        text="TLC enumerates every document of Layout.tla (all sequences of structural line classes up to N lines, single-line deviations, LF/CRLF, final line end) together with the grammar's nesting automaton; each is rendered and parsed by the real parser in both attribution modes and print/round-trip, store concatenation and every sub-model's slice are compared with the input; PostLex.tla (mark insertion state machine, invariants checked by TLC) is replayed into the real PostLex class. One character of each of 43 special classes (BOM, NBSP, zero-width, bidi, NEL/LS/PS/VT/FF, NUL, bare CR, astral, combining, escapes, lone surrogate, ...) is inserted at the start, inside and end of every token of base documents; accepted texts must print back unchanged.",
+        note="Small scope: <= 4 (quick) / 5 (thorough) lines over 12 line classes with rotating concrete directives; characters inside lexemes are representatives plus one character per special class at three positions per token (the regex lexer is exercised, not modelled).",
         technique="TLA+ Layout enumeration + PostLex state machine (TLC), replayed on the real parser",
         ref="§2.8, §6 C01"),
     'C10': dict(
-        text="RepList.tla specifies one repeated field and all views onto it with Python list / ordered-dict semantics (PySeq.tla); TLC checks the design invariants and enumerates every call through every view with every index/slice spelling (depth 1) and reduced menus (depth 2-3); each behaviour is replayed on 9 repeated-field families of the real library (load factor rotated) and every view is compared with the specification after every call, including the Python read protocol (len, every index, slices, in, keys/values/items, first-match lookup). RepImpl.tla - the wrappers' token placement and the views' bisect index arithmetic transcribed statement by statement - is checked by TLC against the canonical rendering and the recomputed filters; each repaired deviation is reproduced as a TLC counterexample.",
+        text="RepList.tla specifies one repeated field and all views onto it with Python list / ordered-dict semantics (PySeq.tla); TLC checks the design invariants and enumerates every call through every view with every index/slice spelling (depth 1) and reduced menus (depth 2-3); each behaviour is replayed on 9 repeated-field families of the real library (load factor rotated) and every view is compared with the specification after every call, including the Python read protocol (len, every index, slices, in, keys/values/items, first-match lookup). The operations inherited from collections.abc (+=, reverse, setdefault, update; iteration both ways, index, count, get) are part of the model. RepImpl.tla - the wrappers' token placement and the views' bisect index arithmetic transcribed statement by statement - is checked by TLC against the canonical rendering and the recomputed filters, each repaired deviation is reproduced as a TLC counterexample, and its behaviours are replayed on the real wrappers with the specification variable rawIdx compared to the private _raw_indexes of every registered view. After node-level and value-level slot edits (Slots.tla, incl. whole repeated fields replaced) every cached derived view must show what the printed document shows.",
         note="Exhaustive within the constants in evidence.replist_runs; lists of <= 3 initial items, batches <= 2-3.",
         technique="TLA+ RepList/PySeq (TLC) + behaviour replay on the real views",
         ref="§2.3, §6 C10"),
@@ -83,12 +83,12 @@ CLAIMED = {
         technique="TLA+ RepList rendering + frame conditions, replayed on real documents",
         ref="§2.3, §6 C03"),
     'C06': dict(
-        text="After every step of RepList.tla, Slots.tla, CostSpec.tla, NumExpr.tla (arithmetic inside documents) behaviours and of composed random histories (while no syntax-breaking call was made) the printed document is re-parsed and compared: content of the re-parsed tree = content of the in-memory tree = the specification's state; every view must show the same in memory and after re-parse.",
+        text="After every step of RepList.tla, Slots.tla, CostSpec.tla, MetaValue.tla, NumExpr.tla (arithmetic inside documents; the value a node reports is content) behaviours and of composed random histories (while no syntax-breaking call was made) the printed document is re-parsed and compared: content of the re-parsed tree = content of the in-memory tree = the specification's state; every view must show the same in memory and after re-parse.",
         note="Syntax-preserving edits only (values from the lexical domain, donors with fitting indent); comment attribution aside.",
         technique="TLA+ RepList behaviours replayed, print/re-parse three-way comparison",
         ref="§6 C06"),
     'C05': dict(
-        text="Tree!WellFormed (Tree.tla; the Python transliteration is cross-checked against TLC on sound and deliberately corrupted dumps of real trees in every run) is evaluated on the real tree after every call of: RepList.tla behaviours (all list operations through every view, edits through inserted children, popped nodes self-contained), Slots.tla behaviours (optional / required / repeated slots, attached donors), spacing assignments, comment attribution sequences (every call, hand-back-and-forth), and composed random histories interleaving all edit kinds incl. deep-copy-and-insert.",
+        text="Tree!WellFormed (Tree.tla; the Python transliteration is cross-checked against TLC on sound and deliberately corrupted dumps of real trees in every run) is evaluated on the real tree after every call of: RepList.tla behaviours (all list operations through every view, edits through inserted children, popped nodes self-contained), Slots.tla behaviours (optional / required / repeated slots, attached donors), MetaValue.tla behaviours, spacing assignments, comment attribution sequences (every call, hand-back-and-forth), and composed random histories interleaving all edit kinds incl. deep-copy-and-insert.",
         note="Small documents; composed histories are a seeded random walk (600 / 6000 walks).",
         technique="TLA+ RepList behaviours replayed, WellFormed invariant on the real tree at every step",
         ref="§2.1, §6 C05"),
